@@ -123,7 +123,26 @@ func runGossip(c *core.Ctx) {
 	seq := ""
 	atHeight := 0
 	n := 8 + r.Intn(9)
+	lockLeaked := func(after string) bool {
+		if victim.CS.VerifStateLockFree() {
+			return false
+		}
+		// the gossip goroutines only take the lock for the duration of GetRoundState: probe again after pauses
+		time.Sleep(20 * time.Millisecond)
+		if victim.CS.VerifStateLockFree() {
+			return false
+		}
+		time.Sleep(200 * time.Millisecond)
+		if victim.CS.VerifStateLockFree() {
+			return false
+		}
+		c.Violation("state-lock-leaked/announcement", "after "+after+" the consensus state mutex stays held: the node is halted", map[string]interface{}{"sequence": seq})
+		return true
+	}
 	for i := 0; i < n; i++ {
+		if lockLeaked("the announcements so far") {
+			return
+		}
 		rs := victim.CS.GetRoundState()
 		h, round := rs.Height, rs.Round
 		if r.Chance(0.15) {
